@@ -224,3 +224,41 @@ def save_load_every_length(n: int, fi: int) -> bool:
             same = err is None and plain(fresh) == plain(cfg)
         hold("rt", same, lambda: "%s document of a %d-character value does not load back: %r" % (fmt, len(pad), err))
     return True
+
+
+@obligation(prop="C19", sites=("again",), encodes=ENC, stubs=("FakeFS", "MemFormat"), budget={"quick": 200, "thorough": 400},
+            what="histories of saves on one configuration object: save, then the file is changed by someone else "
+                 "(other content / deleted / saved by another configuration) or the configuration itself changes "
+                 "(symbolic), then save again: the file holds exactly the serialisation of the current configuration")
+def save_twice(between: int, change_value: bool, fmt_i: int) -> bool:
+    """
+    pre: 0 <= between <= 3 and 0 <= fmt_i <= 1
+    post: _
+    """
+    fs = FakeFS(files={KEYPATH: KEY}, dirs=["/k", "/cfg"])
+    mem = MemStore()
+    fmt = "mem" if fmt_i == 0 else "json"
+    with fs.patched(), mem.registered():
+        schema = _schema()
+        cfg = schema(key_filename=KEYPATH)
+        cfg.save(DEST, format=fmt)
+        first = fs.files.get(DEST)
+        hold("again", first is not None, "first save wrote nothing")
+        if between == 1:
+            fs.files[DEST] = OLD                      # rewritten by something else
+        elif between == 2:
+            del fs.files[DEST]                        # deleted
+        elif between == 3:
+            other = schema(key_filename=KEYPATH)
+            other.a = 4242
+            other.save(DEST, format=fmt)              # another configuration saved to the same path
+        if change_value:
+            cfg.a = 77
+        cfg.save(DEST, format=fmt)
+        content = fs.files.get(DEST)
+        hold("again", content is not None, "second save left no file")
+        fresh = schema(key_filename=KEYPATH)
+        fresh.load(DEST, format=fmt)
+        hold("again", plain(fresh) == plain(cfg),
+             lambda: "after the second save the file does not hold the current configuration: %r" % (content,))
+    return True
